@@ -218,11 +218,11 @@ def failing_documents(g1):
     return docs
 
 
-def try_load(h, doc, arg):
+def try_load(h, doc, arg, **kw):
     try:
         if isinstance(doc, Raised):
             raise doc
-        return ("ok", X.load(h, clone_tree(doc), arg))
+        return ("ok", X.load(h, clone_tree(doc), arg, **kw))
     except Raised as r:
         return ("raise", r.exc.tname)
     except RecursionError:
@@ -247,6 +247,7 @@ def model_loads(ctx: Ctx, thorough: bool):
         ctx.refuted("R16.m", f"{LOAD}::baseline", f"the checker's reference document fails to load: {r.exc.tname} {r.exc.args}")
         return
     rend = renderings(g1)
+    base_root = None
     ctx.stats["renderings"] = len(rend)
     # (a) spelling independence, each rendering loaded in a fresh process state
     for name, (doc, arg) in rend.items():
@@ -262,6 +263,24 @@ def model_loads(ctx: Ctx, thorough: bool):
             continue
         diff = X.compare_ignoring_ns(h2, base, got)
         ctx.decide(diff is None, "R16.m", site, "same definition", f"the document spelled as `{name}` loads to a different definition: {diff}")
+        # ... and with the loader's other argument given (a non-default root container): still the same definition
+        site = f"{LOAD}::rendering::{name}::root_container_name given"
+        h2 = X.harness(prog)
+        try:
+            if base_root is None:
+                base_root = X.load(X.harness(prog), clone_tree(g1), "xtce", root_container_name="SCI")
+            kind, got = try_load(h2, doc, arg, root_container_name="SCI")
+        except (Unsupported, StepLimit) as e:
+            ctx.unknown("R16.m", site, str(e))
+            continue
+        except Raised as r:
+            ctx.unknown("R16.m", site, f"the reference rendering does not load with a root container name: {r.exc.tname}")
+            continue
+        if kind != "ok":
+            ctx.refuted("R16.m", site, f"the same document spelled as `{name}` fails to load when root_container_name='SCI' is given: {got}")
+            continue
+        diff = X.compare_ignoring_ns(h2, base_root, got)
+        ctx.decide(diff is None, "R16.m", site, "same definition", f"the document spelled as `{name}`, loaded with root_container_name='SCI', differs: {diff}")
     # (b) history independence (on a tiny document: the process-wide state does not depend on document size)
     hm = X.harness(prog)
     gm = X.write_tree(hm, hm.ev(X.tiny_src(), DEF))
@@ -406,7 +425,8 @@ SPEC = PropSpec(
                  "the same definition, and so must each target after histories of earlier loads drawn from other "
                  "renderings, malformed input and documents that fail half-way. lxml's own namespace resolution is "
                  "modelled, not decided."
-                 ' Path histories: the same path loaded again through load_xml after the file was replaced by another rendering or by malformed XML reflects the file, and two loads never share one definition object.'),
+                 ' Path histories: the same path loaded again through load_xml after the file was replaced by another rendering or by malformed XML reflects the file, and two loads never share one definition object.'
+                 ' Renderings include indentation (whitespace text and tails, spaces or tabs) next to comments.'),
     rule_doc="R16.1/R16.3 per reader function; R16.2 per setter; R16.m per rendering and per (history, target)",
     assumptions=["lxml: ElementPath `*` and named steps select elements only; iterating an element yields comments too",
                  "lxml resolves prefixes through the namespaces= argument (None key = default namespace)"],
